@@ -207,9 +207,14 @@ class Inj:
     return False
 
   # ---- port rules, update blocks
-  def inj_port_blk(s, what):
+  def inj_port_blk(s, what, level=None):
+    """level: 'top' = the offending block lives in the elaboration top itself, 'inner' = in a component below it"""
     rng, d = s.rng, s.d
-    withkids = [p for p in sorted(d.insts) if d.insts[p].children]
+    insts = sorted(d.insts)
+    if level == 'top': insts = [()]
+    elif level == 'inner': insts = [p for p in insts if p != ()]
+    if not insts: return False
+    withkids = [p for p in insts if d.insts[p].children]
     if what == 'read-child-wire' and withkids:
       p = rng.choice(withkids); c = rng.choice(d.insts[p].children)
       xs = [x for x in c.sigs if x.kind == 'wire']
@@ -227,7 +232,7 @@ class Inj:
       e = sub_ep(rng, rng.choice(xs))
       s.new_blk(p, [f'{e.local(p)} @= {const_text(rng, e.T)}'], [(e, '@=')]); return True
     if what == 'write-own-in':
-      p = rng.choice(sorted(d.insts)); xs = [x for x in d.insts[p].sigs if x.kind == 'in']
+      p = rng.choice(insts); xs = [x for x in d.insts[p].sigs if x.kind == 'in']
       e = sub_ep(rng, rng.choice(xs))
       s.new_blk(p, [f'{e.local(p)} @= {const_text(rng, e.T)}'], [(e, '@=')]); return True
     if what == 'write-child-in' and withkids:            # legal when nothing else drives it
@@ -341,6 +346,65 @@ class Inj:
             d.stmts[host].append(('conn', e, v)); s.b.drv[v.sig.root] = s.b.drv.get(v.sig.root, 0) | v.mask
             s.b.reader_eps.append(v); break
       return True
+    return False
+
+  def free_fit(s, inst, kinds, T, avoid=()):
+    xs = [x for x in inst.sigs if x.kind in kinds and x not in avoid]; s.rng.shuffle(xs)
+    for x in xs:
+      vs = [v for v in fits(x, T, s.rng) if s.b.free(v)]
+      if vs: return s.rng.choice(vs)
+    return None
+
+  def take(s, e):
+    s.b.drv[e.sig.root] = s.b.drv.get(e.sig.root, 0) | e.mask
+    return e
+
+  def inj_chain(s, kind):
+    """chain-shaped nets through child ports.  The port-direction rule is applied edge by edge along the walk from the
+    writer, so the same set of signals can be legal as a star (w0 -> child.in, w0 -> w1) and illegal as a chain
+    (w0 -> child.in -> w1: a child's InPort drives the parent's wire)."""
+    rng, d = s.rng, s.d
+    ps = [p for p in sorted(d.insts) if d.insts[p].children]; rng.shuffle(ps)
+    T = ('b', rng.choice([4, 8, 8, 16, 1, 3]))
+    for p in ps:
+      P = d.insts[p]; K1 = rng.choice(P.children); K2 = rng.choice(P.children)
+      def blk_drive(e):
+        h = s.host_for_write(e.sig)
+        s.new_blk(h, [f'{e.local(h)} @= {const_text(rng, e.T)}'], [(e, '@=')])
+      if kind in ('down-up', 'star(legal)'):
+        w0 = s.free_fit(P, ('wire', 'out'), T)
+        if w0 is None: continue
+        s.take(w0)
+        ci = s.free_fit(K1, ('in',), T); w1 = s.free_fit(P, ('wire', 'out'), T, avoid=(w0.sig,))
+        if ci is None or w1 is None: continue
+        s.take(ci); s.take(w1); blk_drive(w0)
+        d.stmts[p].append(('conn', w0, ci))
+        d.stmts[p].append(('conn', ci, w1) if kind == 'down-up' else ('conn', w0, w1))
+        return True
+      if kind == 'wire-up':
+        cw = s.free_fit(K1, ('wire',), T); w1 = s.free_fit(P, ('wire', 'out'), T)
+        if cw is None or w1 is None: continue
+        s.take(cw); s.take(w1); blk_drive(cw)
+        d.stmts[p].append(('conn', w1, cw)); return True
+      if kind == 'in-up-via-block':
+        # the parent's block writes the child's InPort (legal), which then drives the parent's wire (not legal)
+        ci = s.free_fit(K1, ('in',), T); w1 = s.free_fit(P, ('wire', 'out'), T)
+        if ci is None or w1 is None: continue
+        s.take(ci); s.take(w1); blk_drive(ci)
+        d.stmts[p].append(('conn', ci, w1)); return True
+      if kind == 'up-down(legal)':
+        co = s.free_fit(K1, ('out',), T); w = s.free_fit(P, ('wire', 'out'), T); ci = s.free_fit(K2, ('in',), T)
+        if co is None or w is None or ci is None: continue
+        s.take(co); s.take(w); s.take(ci); blk_drive(co)
+        d.stmts[p].append(('conn', co, w)); d.stmts[p].append(('conn', ci, w)); return True
+      if kind == 'two-children(legal)':
+        co = s.free_fit(K1, ('out',), T); ci = s.free_fit(K2, ('in',), T)
+        if co is None or ci is None: continue
+        s.take(co); s.take(ci)
+        ko = s.free_fit(K2, ('out', 'wire'), T); po = s.free_fit(P, ('out', 'wire'), T)
+        if ko is None or po is None or ko.sig.kind != 'out': continue
+        s.take(ko); s.take(po); blk_drive(co)
+        d.stmts[p].append(('conn', co, ci)); d.stmts[K2.path].append(('conn', ko, ci)); d.stmts[p].append(('conn', po, ko)); return True
     return False
 
   def inj_loopback(s, at_parent):
@@ -476,13 +540,26 @@ INJECTIONS = [
   ('nowriter:touching-slice', 2, lambda j: j.inj_nowriter(touching=True)),
   ('loop', 4, lambda j: j.inj_loop()),
   ('duplicate-connect(legal)', 2, lambda j: j.inj_loop(duplicate=True)),
-  ('port-blk:read-child-wire', 2, lambda j: j.inj_port_blk('read-child-wire')),
-  ('port-blk:read-child-port(legal)', 1, lambda j: j.inj_port_blk('read-child-port')),
-  ('port-blk:write-child-out', 2, lambda j: j.inj_port_blk('write-child-out')),
-  ('port-blk:write-child-wire', 2, lambda j: j.inj_port_blk('write-child-wire')),
-  ('port-blk:write-own-in', 2, lambda j: j.inj_port_blk('write-own-in')),
-  ('port-blk:write-child-in(legal)', 2, lambda j: j.inj_port_blk('write-child-in')),
-  ('port-blk:write-grandchild-in', 2, lambda j: j.inj_port_blk('write-grandchild-in')),
+  ('port-blk:read-child-wire@top', 1, lambda j: j.inj_port_blk('read-child-wire', 'top')),
+  ('port-blk:read-child-wire@inner', 1, lambda j: j.inj_port_blk('read-child-wire', 'inner')),
+  ('port-blk:read-child-port@top(legal)', 1, lambda j: j.inj_port_blk('read-child-port', 'top')),
+  ('port-blk:read-child-port@inner(legal)', 1, lambda j: j.inj_port_blk('read-child-port', 'inner')),
+  ('port-blk:write-child-out@top', 1, lambda j: j.inj_port_blk('write-child-out', 'top')),
+  ('port-blk:write-child-out@inner', 1, lambda j: j.inj_port_blk('write-child-out', 'inner')),
+  ('port-blk:write-child-wire@top', 1, lambda j: j.inj_port_blk('write-child-wire', 'top')),
+  ('port-blk:write-child-wire@inner', 1, lambda j: j.inj_port_blk('write-child-wire', 'inner')),
+  ('port-blk:write-own-in@top', 2, lambda j: j.inj_port_blk('write-own-in', 'top')),
+  ('port-blk:write-own-in@inner', 2, lambda j: j.inj_port_blk('write-own-in', 'inner')),
+  ('port-blk:write-child-in@top(legal)', 1, lambda j: j.inj_port_blk('write-child-in', 'top')),
+  ('port-blk:write-child-in@inner(legal)', 1, lambda j: j.inj_port_blk('write-child-in', 'inner')),
+  ('port-blk:write-grandchild-in@top', 1, lambda j: j.inj_port_blk('write-grandchild-in', 'top')),
+  ('port-blk:write-grandchild-in@inner', 1, lambda j: j.inj_port_blk('write-grandchild-in', 'inner')),
+  ('chain:down-up', 4, lambda j: j.inj_chain('down-up')),
+  ('chain:wire-up', 3, lambda j: j.inj_chain('wire-up')),
+  ('chain:in-up-via-block', 2, lambda j: j.inj_chain('in-up-via-block')),
+  ('chain:star(legal)', 2, lambda j: j.inj_chain('star(legal)')),
+  ('chain:up-down(legal)', 2, lambda j: j.inj_chain('up-down(legal)')),
+  ('chain:two-children(legal)', 2, lambda j: j.inj_chain('two-children(legal)')),
   ('port-net:any', 10, lambda j: j.inj_port_net()),
   ('far-net:cousins', 5, lambda j: j.inj_far_net('cousins')),
   ('far-net:uncle-nephew', 2, lambda j: j.inj_far_net('uncle')),
